@@ -388,8 +388,62 @@ def rule_snap(repo):
     return res
 
 
+@guarded
+def rule_last(repo):
+    """`self.state` / `self.input` are "the most recent state / input the system was CALLED with": set_refpoint() without arguments linearises there, and the
+    documentation pairs them (x_k, u_k).  Every store to them in a forward() therefore takes the call's own argument (through atleast_1d & co.), never
+    the propagated state x_{k+1} or the observation; and set_refpoint's defaults read exactly these two attributes."""
+    res = RuleResult('C15.LAST', 'self.state / self.input are stored from the arguments of the call (the point the system was called with), never from the result of '
+                     'state_transition / observation; set_refpoint() without arguments linearises at (self.state, self.input)', floor=4)
+    n = 0
+    for c in repo.module(DYN).classes.values():
+        for name, f in c.methods.items():
+            if name != 'forward' or len(f.pos_params) < 3:
+                continue
+            want = {'self.state': f.pos_params[1], 'self.input': f.pos_params[2]}
+            inl = None
+            for a in paths.assigns_in(f.node) if hasattr(paths, 'assigns_in') else [x for x in ast.walk(f.node) if isinstance(x, ast.Assign)]:
+                pairs = []
+                for t in a.targets:
+                    if isinstance(t, ast.Tuple) and isinstance(a.value, ast.Tuple) and len(t.elts) == len(a.value.elts):
+                        pairs += list(zip(t.elts, a.value.elts))
+                    else:
+                        pairs.append((t, a.value))
+                for t, v in pairs:
+                    d = dotted(t)
+                    if d not in want:
+                        continue
+                    n += 1
+                    inl = inl or inline_straight(f.node, upto=a)
+                    val = inl.value(v)
+                    names = {x.id for x in ast.walk(val) if isinstance(x, ast.Name)} - {'torch', 'self'}
+                    calls = [dotted(x.func) or '' for x in ast.walk(val) if isinstance(x, ast.Call)]
+                    derived = [q for q in calls if q.split('.')[-1] in ('state_transition', 'observation', 'forward') or q.startswith('self.') and q.split('.')[-1] not in ('atleast_1d',)]
+                    ok = names == {want[d]} and not derived
+                    res.inst({'function': f.fq, 'attribute': d, 'stored value': src(val)[:60], 'is the call argument': ok}, (f.fq, d, src(v)[:40]))
+                    if not ok:
+                        res.add(Finding('C15.LAST', f, '`%s` is stored from `%s`, not from the argument `%s` of the call: set_refpoint() without a state / input linearises at '
+                                        '(self.state, self.input), documented as the point the system was last called with - x_k paired with u_k, not the propagated '
+                                        'x_(k+1)' % (d, src(val)[:60], want[d]), node=a, construct='%s stored from a computed value' % d))
+    sr = repo.func(DYN, 'NLS.set_refpoint')
+    for attr, par in (('_ref_state', 'state'), ('_ref_input', 'input')):
+        for a in ast.walk(sr.node):
+            if isinstance(a, ast.Assign) and any(dotted(t) == 'self.' + attr for t in a.targets) and isinstance(a.value, ast.IfExp):
+                n += 1
+                alts = [a.value.body, a.value.orelse]
+                dflt = [x for x in alts if not any(isinstance(y, ast.Name) and y.id == par for y in ast.walk(x))]
+                ok = len(dflt) == 1 and dotted(dflt[0]) == 'self.' + par
+                res.inst({'function': sr.fq, 'reference': attr, 'default': src(dflt[0])[:40] if dflt else None, 'is self.%s' % par: ok}, (sr.fq, attr))
+                if not ok:
+                    res.add(Finding('C15.LAST', sr, 'the default of the reference %s is `%s`, not `self.%s` (the %s of the last call)' % (par, src(dflt[0])[:40] if dflt else '?', par, par),
+                                    node=a, construct='default reference ' + par))
+    if n < 4:
+        raise AnalysisError('C15.LAST: only %d stores of self.state / self.input / reference defaults were found' % n)
+    return res
+
+
 def _rules_core(repo, tier):
-    return [rule_own_hook(repo), rule_super(repo), rule_lin(repo), rule_eq(repo), rule_pure(repo), rule_snap(repo)]
+    return [rule_own_hook(repo), rule_super(repo), rule_lin(repo), rule_eq(repo), rule_pure(repo), rule_snap(repo), rule_last(repo)]
 
 
 def rules(repo, tier):
